@@ -121,16 +121,28 @@ def gen_unit(rng):
 
 def generate(rng, tier):
     n = 500 if tier == 'quick' else 12000
-    return [gen_case(rng, tier) for _ in range(n)] + [gen_unit(rng) for _ in range(n // 2)]
+    # programs of several statements of ONE instruction with overlapping variants (the C13 generator): every statement's
+    # bits depend on the ISA, its operands and its address only - never on the statements assembled before it
+    from props import c13 as C13
+    multi = [{'c13': C13.gen_case(rng, tier), 'types': ['multi-statement'], 'specific': False} for _ in range(n // 5)]
+    multi += [{'c13': C13.gen_case_shadow(rng, tier), 'types': ['multi-statement'], 'specific': False} for _ in range(n // 20)]
+    multi += [{'c13': C13.gen_case_history(rng, tier), 'types': ['multi-statement'], 'specific': False} for _ in range(n // 5)]
+    return [gen_case(rng, tier) for _ in range(n)] + [gen_unit(rng) for _ in range(n // 2)] + multi
 
 
 def to_impl(case):
+    if case.get('c13'):
+        from props import c13 as C13
+        return C13.to_impl(case['c13'])
     if case.get('unit'):
         return probes.call('packed_bits', [[f['v'], f['n'], f['align'], f['little']] for f in case['fields']])
     return impl.compile_case(case['isa'], {'main.asm': case['asm']}, start=case['addr'])
 
 
 def to_model(case):
+    if case.get('c13'):
+        from props import c13 as C13
+        return C13.to_model(case['c13'])
     if case.get('unit'):
         return {'op': 'fields', 'fields': case['fields']}
     return case['model']
@@ -148,6 +160,12 @@ def _fields(case):
 
 
 def judge(case, ir, mr):
+    if case.get('c13'):
+        from props import c13 as C13
+        j = C13.judge(case['c13'], ir, mr)
+        j['tags'] = ['history-independence: several statements, overlapping variants'] + \
+            [t for t in j.get('tags', []) if not t.startswith(('variant=', 'nvar=', 'stmts='))]
+        return j
     tags = ['nops=%d' % len(case['types'])] + ['type=' + t for t in set(case['types'])]
     if case['specific']:
         tags.append('specific')
@@ -180,6 +198,8 @@ def judge(case, ir, mr):
 
 
 def shrink_candidates(case):
+    if case.get('c13'):
+        return []
     # drop operands one at a time (keeps ISA and statement consistent by regenerating text is not possible here),
     # so only simplify placement
     out = []
